@@ -7,7 +7,9 @@ C07_F04_memmove_bounds C07_widths_no_wrap C07_no_divzero C07_error_kinds C07_typ
 C07_xy_never_aborts C07_F69_ignored C07_F67_rejected C07_indexes_length_nodup C07_interleave_perm C07_loops_perm C07_parse_arrays_ok
 C07_explicit_list_as_written C07_parse_faithful C07_build_wf_bounded C07_dump_structure C07_export_contract C07_export_contract_zero
 C07_export_rejects_unknown_flags C07_126_levels_accepted C07_deeper_level_interleave_ignored C07_trailing_colon_ignored
-C07_overlapping_strides_rejected C07_interleave_by_pu""".split()]
+C07_overlapping_strides_rejected C07_interleave_by_pu
+C07_attached_numa_present C07_numa_census_filter_independent C07_unfilterable_types C07_filtered_levels_keep_numas
+C07_attached_numa_survive_filters_bounded""".split()]
 CHECK_MODULES = ["Hw.Props.C07"]
 TRUSTED = ["libc strtoul/strtoull/strtol are modelled (Hw.Base.Num.strtoul for unsigned input, Hw.Syn.strtoulS/strtolU32 add glibc's sign, "
            "saturation and (unsigned) truncation); strchr/strspn/strcspn/strncmp/strncasecmp (C locale) are modelled in Hw.Io.Synthetic; "
@@ -20,15 +22,25 @@ TRUSTED = ["libc strtoul/strtoull/strtol are modelled (Hw.Base.Num.strtoul for u
 ASSUMPTIONS = ["allocations above 64 MB fail (ASAN_OPTIONS max_allocation_size_mb=64), mirrored by Hw.Syn.allocLimit",
                "build comparison only for `Regular` descriptions (buildTopo = some): no Group/Die in a run of arity-1 levels, runs in the core's "
                "type order, ascending NUMA indexes per parent; every loaded topology (regular or not) goes through the WF oracle",
-               "I-cache and MemCache type filters are set to KEEP_ALL before loading (so that every level and memory-side cache written in "
-               "the description is observable)"]
+               "every description is loaded with the I-cache and MemCache type filters set to KEEP_ALL (so that every level and memory-side "
+               "cache written in it is observable) and, for about half of them, once or twice more under generated type filters (library "
+               "defaults, KEEP_NONE / KEEP_STRUCTURE / KEEP_IMPORTANT / KEEP_ALL on the types of its levels, biased towards the level that "
+               "carries attached NUMA nodes; refused requests included); the NUMA census (count, os_index, local memory, memory-side cache, "
+               "cpuset of every NUMA node) is compared for EVERY loaded case, Regular or not, under every filter configuration",
+               "under type filters the Regular class also excludes: a level of a KEEP_STRUCTURE type inside a run of arity-1 levels, memory "
+               "away from the root when Groups are KEEP_NONE, memory-side caches when MemCache is KEEP_STRUCTURE; the export/reload/export op "
+               "re-imports with every type kept and is not issued under Group KEEP_NONE (parked quirk, see harness/h_synthetic.c)"]
 MODELLED = ("modelled: hwloc/topology-synthetic.c hwloc_synthetic_process_indexes (+ duplicate check), parse_memory_attr, parse_attrs, "
             "set_default_attrs, backend_synthetic_init, the export functions; hwloc_type_sscanf + hwloc__type_match (traversal.c); "
             "specification level only: hwloc__look_synthetic / insert_attached as buildTopo (abstract level structure) + toDump (the "
             "complete public-API dump: DFS numbering, links, levels, sets, memory totals, attributes) for the Regular class, compared "
             "field by field with the real dump and run through wfCheck on every case; "
+            "type filters: hwloc__topology_filter_init + hwloc__topology_set_type_filter as effFilters (compared with "
+            "hwloc_topology_get_type_filter through the dump), hwloc_filter_check_keep_object_type in hwloc__look_synthetic as dropPlain / "
+            "devirt (levels that are not built; their attached NUMA nodes re-attached by the core: only child, parent, root, or a memory Group); "
             "PROVED for every input string: level[] index safety, loops[] write safety, array length/Nodup/permutation of accepted indexes, "
-            "export length contract, parse_faithful (types and arities of canonical descriptions without attributes); "
+            "export length contract, one census entry per described NUMA node independent of the normal-type filters, devirt keeps the "
+            "number of NUMA nodes and leaves no unbuilt level (every chain), PU/NUMA/Machine cannot be filtered out, parse_faithful (types and arities of canonical descriptions without attributes); "
             "build_wf only for a finite family (C07_build_wf_bounded, kernel-evaluated); NOT PROVED (differential / oracle per case): "
             "build_wf in general (wfCheck runs on the real dump of every loaded topology and on the model's dump of every Regular one), "
             "export_fixpoint (engine oracle; F34/F35 known), parse_faithful with attributes")
